@@ -149,6 +149,8 @@ Next ==
        ELSE IF ev.e = "Tf" THEN Judge(ev, TfExpected(ev), TfObserved(ev), <<"Tf", ev.name, ev.form, ev.failed>>)
        ELSE IF ev.e = "Btcc" THEN Judge(ev, BtccExpected(ev), BtccObserved(ev), <<"Btcc", ev.kind>>)
        ELSE IF ev.e = "Tap" THEN Judge(ev, TapExpected(ev), TapObserved(ev), <<"Tap", ev.mode, Len(ev.scripts), ev.sighash # "">>)
+       \* the leaf hash the debugger announces for a script-path spend (also for leaf versions it then refuses): TapLeaf(version || script), shown reversed
+       ELSE IF ev.e = "LeafShown" THEN Judge(ev, [shown |-> BytesToHex(Reverse(TapLeafHash(ev.leafver, H(ev.script))))], [shown |-> ev.shown], <<"LeafShown", ev.leafver = 192>>)
        ELSE IF ev.e = "Amt" THEN Judge(ev, AmtExpected(ev), AmtObserved(ev), <<"Amt", ev.ok>>)
        ELSE IF ev.e = "FlagList" THEN Judge(ev, FlagListExpected(ev), FlagListObserved(ev), <<"FlagList", ev.accepted, Len(ev.flags)>>)
        ELSE IF ev.e = "DefaultFlags" THEN Judge(ev, DefaultExpected(ev), DefaultObserved(ev), <<"DefaultFlags">>)
